@@ -16,6 +16,8 @@ class F64 {
   template <typename I, std::enable_if_t<std::is_integral_v<I>, bool> = true>
   explicit F64(I i) : e(ctx().fpa_val((double)i)) {}
   explicit F64(z3::expr x) : e(x) {}
+  F64(const F64 &) = default;  // copy only, see sym::Real
+  F64 &operator=(const F64 &) = default;
   static F64 var(const std::string &nm) {
     z3::expr v = ctx().constant(nm.c_str(), ctx().fpa_sort(11, 53));
     auto &E = Engine::get();
